@@ -234,7 +234,8 @@ func (f *defaultFactory) doCreateComponent(name string, meta *component_definiti
 				f.logger().Tracef("early singleton reference with name '%s' has been injected into components %s", name, dependents)
 				var actualDependents []string
 				for _, dependent := range dependents {
-					if !f.singletonComponentRegistry.IsSingletonCurrentlyInCreation(dependent) {
+					// the component itself may hold its own early reference (e.g. through its own slice)
+					if dependent == name || !f.singletonComponentRegistry.IsSingletonCurrentlyInCreation(dependent) {
 						actualDependents = append(actualDependents, dependent)
 					}
 				}
